@@ -836,6 +836,8 @@ func (s *session) exec(args []string) string {
 		return s.doImport(args[1:])
 	case "setiv": // SetInitialVersion on the open tree
 		t.SetInitialVersion(uint64(atoi(args[1])))
+		// trees the crash / fault modes open on an image of this store get the same initial version
+		s.cfg.iv = atoi(args[1])
 		return "ok"
 	case "hold": // hold <id> <version>: open an exporter and keep it
 		it, err := t.GetImmutable(atoi(args[2]))
